@@ -310,6 +310,14 @@ impl MachineState {
 
     #[inline(always)]
     pub(crate) fn check_for_interrupt(&mut self) -> bool {
+        // catch/3 and setup_call_cleanup/3 pop their choice point and
+        // restore the enclosing block in separate instructions. In between,
+        // the block register names a frame that is gone, and throwing would
+        // backtrack into it: leave the interrupt pending for the next poll.
+        if self.effective_block() > self.b {
+            return false;
+        }
+
         if INTERRUPT.swap(false, atomic::Ordering::Relaxed) {
             self.throw_interrupt_exception();
             self.backtrack();
